@@ -60,6 +60,7 @@ RxDecode(pre, fill, len, mtu) ==
        rs   |-> A6(pre, fill, 25),
        seq  |-> W16(pre, fill, 31),
        len  |-> len,
+       grew |-> "?",       \* did the retained allocation count grow while this request was served? (set by the trace spec)
        \* Discover
        gen  |-> W16(pre, fill, 33),
        \* Emit: declared count, and the descriptors a walk bounded by the buffer would see
